@@ -41,10 +41,11 @@ pub fn run(input: &Value) -> Case {
     let (r, gg, b) = (g(0), g(1), g(2));
     let color = RGBA::new(r, gg, b, 255);
     let caps = TerminalCaps { depth: depth_of(&depth), glyphs: false, kitty_keyboard: false };
+    // three different colours for the three roles: fg = c, bg = rot c, underline = rot (rot c)
     let cmd = TerminalCommand::FaceModify(FaceModify {
         fg: Some(color),
-        bg: Some(color),
-        underline_color: Some(color),
+        bg: Some(RGBA::new(gg, b, r, 255)),
+        underline_color: Some(RGBA::new(b, r, gg, 255)),
         ..FaceModify::default()
     });
     let out = encode_bytes(&caps, cmd);
